@@ -520,7 +520,7 @@ def _apply(op, case):
     raise HarnessError("unknown operation %r" % opn)
 
 
-def _value_bound(r, dtname, ref, mag):
+def _value_bound(r, dtname, ref, mag, src_name=None):
     """C01's densify tolerance (DESIGN section 3, exact-structure results) in the precision `dtname`."""
     depth = R.depth(r)
     extra = 1.0
@@ -529,10 +529,15 @@ def _value_bound(r, dtname, ref, mag):
     S = mag
     if S.numel():
         S = S + S.abs().max() * 1e-3
-    if any(n["op"] == "Mul" for n in R.walk(r)) and S.numel():
-        # elementwise products are defined through root decompositions (Cholesky with the documented jitter)
+    nmul = sum(1 for n in R.walk(r) if n["op"] == "Mul")
+    if nmul and S.numel():
+        # elementwise products are defined through root decompositions (Cholesky with the documented jitter of the dtype
+        # the roots were computed in - for a converted copy possibly the coarser source dtype); (A + eI) o (B + eI) - A o B
+        # = e (diag A + diag B) + e^2: the jitter of one operand is scaled by the magnitude of the OTHER, per Mul level
         S = torch.full_like(S, float(S.max())) * tol.root_slack(dtname, ref.shape[-1])
-        return tol.exact_bound(S, dtname, 1, depth, extra) + 16.0 * tol.JITTER_MAX[dtname] * (1.0 + float(mag.max()))
+        J = max(tol.JITTER_MAX[dtname], tol.JITTER_MAX[src_name or dtname])
+        M = max(float(refmodel.dense_abs(n).max()) for n in R.walk(r) if n.get("op") not in (None, "Tensor"))
+        return tol.exact_bound(S, dtname, 1, depth, extra) + 16.0 * J * (1.0 + float(mag.max())) * (1.0 + M) ** nmul
     return tol.exact_bound(S, dtname, 1, depth, extra)
 
 
@@ -725,7 +730,7 @@ def _run(case):
         if tuple(dense.shape) != shape:
             fail(opn, "value", "shape", "result densifies to shape %s, reference %s" % (tuple(dense.shape), shape))
         if dense.numel():
-            bound = _value_bound(r, Ename, ref, mag)
+            bound = _value_bound(r, Ename, ref, mag, src_name=L.RDT[src_dt])
             ratio, idx = tol.worst_excess(dense, ref, bound)
             if ratio > 1.0:
                 fail(opn, "value", "value", "max |result-ref|/bound = %.3g at flat %s (result=%r ref=%r; source/ref ratio %.3g)" % (ratio, idx, dense.reshape(-1)[idx].item(), ref.reshape(-1)[idx].item(), r0))
